@@ -27,7 +27,7 @@ import (
 // ev is one environment event. Dir "snd" = sent by the DATA sender, "rcv" = sent by the DATA receiver.
 type ev struct {
 	Who    string `json:"who"` // snd | rcv
-	T      string `json:"t"`   // data | iws | mfs | wu | hdr (the sender's first HEADERS on the stream) | iws2 (one SETTINGS frame carrying INITIAL_WINDOW_SIZE twice: N then N2) | ack (SETTINGS acknowledgement: Who acknowledges the oldest SETTINGS frame of its peer that it has not acknowledged yet)
+	T      string `json:"t"`   // rst (RST_STREAM on Stream, sent by Who) | data | iws | mfs | wu | hdr (the sender's first HEADERS on the stream) | iws2 (one SETTINGS frame carrying INITIAL_WINDOW_SIZE twice: N then N2) | ack (SETTINGS acknowledgement: Who acknowledges the oldest SETTINGS frame of its peer that it has not acknowledged yet)
 	Stream uint32 `json:"s,omitempty"`
 	N      int    `json:"n,omitempty"` // data length / setting value / increment
 	N2     int    `json:"n2,omitempty"`
@@ -37,6 +37,9 @@ type ev struct {
 
 func (e ev) String() string {
 	s := e.str()
+	if e.T == "rst" {
+		return e.Who + ":" + s // a reset ends the stream in both directions, whoever sends it
+	}
 	if e.Who == "rcv" && e.T == "data" || e.Who == "snd" && e.T != "data" && e.T != "hdr" && e.T != "ack" {
 		// an event of the reverse direction (DATA from the forward receiver, a grant from the forward sender)
 		s = "rev:" + s
@@ -58,6 +61,8 @@ func (e ev) str() string {
 		return fmt.Sprintf("SETTINGS(MFS=%d)", e.N)
 	case "ack":
 		return e.Who + ":SETTINGS_ACK"
+	case "rst":
+		return fmt.Sprintf("RST_STREAM(s%d)", e.Stream)
 	}
 	return fmt.Sprintf("WU(s%d,+%d)", e.Stream, e.N)
 }
@@ -147,6 +152,8 @@ func spec(e ev) hw.Spec {
 		return hw.Spec{T: "settings", Settings: [][2]uint32{{5, uint32(e.N)}}}
 	case "ack":
 		return hw.Spec{T: "settings_ack"}
+	case "rst":
+		return hw.Spec{T: "rst", Stream: e.Stream, Code: 8} // CANCEL
 	}
 	return hw.Spec{T: "wu", Stream: e.Stream, Incr: uint32(e.N)}
 }
@@ -252,6 +259,10 @@ func run(sc scenario) (body func(), check func(r *vrt.Result) []finding) {
 				dataL.applySend(e)
 			case "iws", "iws2", "mfs", "wu":
 				grantL.applyGrant(e)
+			case "rst":
+				// RST_STREAM from either end closes the stream in both directions
+				fwd.applyReset(e.Stream)
+				rev.applyReset(e.Stream)
 			}
 		}
 		deliver := func(e ev) {
@@ -343,6 +354,15 @@ func run(sc scenario) (body func(), check func(r *vrt.Result) []finding) {
 		if rcv.RdErr != nil || snd.RdErr != nil {
 			add(sc.Dir+":endpoint_read_error", "endpoint read errors: snd=%v rcv=%v", snd.RdErr, rcv.RdErr)
 		}
+		if os.Getenv("VERIF_REPLAY") != "" && os.Getenv("VERIF_TRACE") != "" {
+			// replay aid: what each endpoint was sent by the relay
+			for _, e := range rcv.Recv {
+				vrt.Log("receiver got %s", e)
+			}
+			for _, e := range snd.Recv {
+				vrt.Log("sender got %s", e)
+			}
+		}
 		for _, k := range stateKeys {
 			vrt.Log("%s", k)
 		}
@@ -430,7 +450,19 @@ func legalFor(h []ev, base scenario) bool {
 		}
 	}
 	opened := map[uint32]bool{}
+	resetBy := map[uint32]string{}
 	for _, e := range h {
+		if e.T == "rst" {
+			// one RST_STREAM per stream (an endpoint does not answer RST_STREAM with RST_STREAM, and a second one of
+			// its own changes nothing)
+			if resetBy[e.Stream] != "" {
+				return false
+			}
+			resetBy[e.Stream] = e.Who
+		}
+		if e.T == "data" && resetBy[e.Stream] == e.Who {
+			return false // an endpoint sends nothing on a stream it has reset itself; its peer may (frames in flight)
+		}
 		if e.T == "hdr" {
 			if opened[e.Stream] {
 				return false
@@ -821,8 +853,8 @@ func main() {
 	rep.Coverage["transitions"] = rep.Counter("history_events") + rep.Counter("concurrent_executions")
 	rep.Coverage["traces_validated_against_impl"] = rep.Counter("executions")
 	rep.Coverage["exhaustive"] = rep.Incomplete == ""
-	rep.Coverage["bounds"] = fmt.Sprintf("%d scenarios: all event histories (21-event alphabet to depth 3 (quick) / 4 (thorough), 12-event alphabet to depth 4 / 5) from receiver initial windows {0,4,default}, both directions, each event followed by run-to-quiescence and invariants I1-I4 evaluated in every state; plus histories over a connection-window alphabet after a third stream used up 65531 / 65535 bytes of the connection window, MAX_FRAME_SIZE histories (raise, lower, back to default) with payloads above a frame; plus 24 concurrent DATA/WINDOW_UPDATE script pairs under schedule exploration; plus the audit families (depth 3 quick / 4-5 thorough each): duplex histories (DATA and grants in both directions, both directions judged), duplex with the connection window used up, MAX_FRAME_SIZE lowered with DATA queued and the lowering acknowledged, END_STREAM on DATA with and without payload and empty frames around windows <= 0, values at 2^31-1, MAX_FRAME_SIZE of both endpoints with duplex payloads above a frame, padding limits, stream processor factories, grants from a stalled receiver after bursts of 16/17/40 frames, 8 concurrent duplex script pairs; round 7: MAX_FRAME_SIZE raised to 65536 (thorough also 2^24-1, and raised by a SETTINGS frame of the history, depth 6) then lowered to 16384 (thorough also 20000) and acknowledged with queued payloads of 2x, 2x+1, 3x+1 (thorough also 3x, 4x-1) of the lowered limit, held back by the stream window or by the connection window, depth 4", len(scen))
+	rep.Coverage["bounds"] = fmt.Sprintf("%d scenarios: all event histories (21-event alphabet to depth 3 (quick) / 4 (thorough), 12-event alphabet to depth 4 / 5) from receiver initial windows {0,4,default}, both directions, each event followed by run-to-quiescence and invariants I1-I4 evaluated in every state; plus histories over a connection-window alphabet after a third stream used up 65531 / 65535 bytes of the connection window, MAX_FRAME_SIZE histories (raise, lower, back to default) with payloads above a frame; plus 24 concurrent DATA/WINDOW_UPDATE script pairs under schedule exploration; plus the audit families (depth 3 quick / 4-5 thorough each): duplex histories (DATA and grants in both directions, both directions judged), duplex with the connection window used up, MAX_FRAME_SIZE lowered with DATA queued and the lowering acknowledged, END_STREAM on DATA with and without payload and empty frames around windows <= 0, values at 2^31-1, MAX_FRAME_SIZE of both endpoints with duplex payloads above a frame, padding limits, stream processor factories, grants from a stalled receiver after bursts of 16/17/40 frames, 8 concurrent duplex script pairs; round 7: MAX_FRAME_SIZE raised to 65536 (thorough also 2^24-1, and raised by a SETTINGS frame of the history, depth 6) then lowered to 16384 (thorough also 20000) and acknowledged with queued payloads of 2x, 2x+1, 3x+1 (thorough also 3x, 4x-1) of the lowered limit, held back by the stream window or by the connection window, depth 4; round 8: RST_STREAM from the receiver or from the sender as an event of the histories around DATA (plain, padded; thorough also END_STREAM, 40000 bytes, 256 bytes of padding) and stream grants from stream windows 0 and default (7-event alphabet, depth 4 / 5), with the receiver's connection window at 4 bytes (depth 3 / 4) and with DATA in both directions (depth 3 / 4); partial grants after an acknowledged lowering of MAX_FRAME_SIZE 32768 -> 16384 with payloads of 30000 and 32768 bytes queued: WINDOW_UPDATE of 16385 and 20000 (thorough also 16384, and 3x+1 payloads from 65536 with grants of 1x+1 and 2x+1) on the stream or on the connection, depth 4 / 5", len(scen))
 	rep.Coverage["explanation"] = "states = distinct ledger states (windows, pending bytes, max frame size; both directions in duplex scenarios) summed over shards; every history is replayed on a fresh real relay (no deduplication); family_* = executions per family (core = the families that existed before the audit)"
-	rep.Assumptions = []string{"2 streams (3 when a third one uses up the connection window); sizes and increments from the alphabets", "a lowering of MAX_FRAME_SIZE announced while accepted DATA is still queued binds those queued frames from the moment the receiver has seen the lowering SETTINGS frame acknowledged (RFC 7540 section 6.5.3); until then frames of the old size are accepted", "I4 at the granularity of the relay's own frames (no obligation to split a frame to fit a smaller window); an empty DATA frame is owed only if it carries END_STREAM and neither window is negative", "receivers that grant a window above 2^31-1 are outside the space"}
+	rep.Assumptions = []string{"2 streams (3 when a third one uses up the connection window); sizes and increments from the alphabets", "a lowering of MAX_FRAME_SIZE announced while accepted DATA is still queued binds those queued frames from the moment the receiver has seen the lowering SETTINGS frame acknowledged (RFC 7540 section 6.5.3); until then frames of the old size are accepted", "I4 at the granularity of the relay's own frames (no obligation to split a frame to fit a smaller window); an empty DATA frame is owed only if it carries END_STREAM and neither window is negative", "receivers that grant a window above 2^31-1 are outside the space", "RST_STREAM (from either end) closes the stream in both directions: DATA the other end still sends on it is owed connection credit exactly (RFC 7540 sections 5.1, 6.9) and stream credit optionally (at least what was sent before the reset, never more than sent); nothing pending on it is owed to the receiver, its stream window is not judged, what is forwarded on it counts against the receiver's connection window; an endpoint sends no DATA on a stream it reset itself; one RST_STREAM per stream", "a relay may or may not cut a queued frame to fit a window: a queued payload is owed when it fits both windows as a whole, the rest of a payload that was partly delivered is owed when it fits"}
 	rep.Finish()
 }
